@@ -274,6 +274,30 @@ Theorem C07_excluded_operations_leave_a_second_record :
 Proof. exact excluded_ops_leave_second_record. Qed.
 Print Assumptions C07_excluded_operations_leave_a_second_record.
 
+(* CloseConnection cleans the control registry also when the base record is already gone: the post-conditions of (c) hold from
+   EVERY state that satisfies the invariant — in particular from states in which a control record outlives its base record, which
+   arise when a late handshake registers the record while CloseConnection removes the base record (the late section preserves
+   the invariant; concrete instance below) *)
+Theorem C07_close_cleans_registry_without_base_record :
+  forall (s : st) (c : N), Inv s ->
+  by_conn (close_conn c s) c = None /\ (forall x, by_client (close_conn c s) x <> Some c) /\
+  mem c (sess (close_conn c s)) = false /\
+  (mem c (sess s) = true \/ by_conn s c <> None -> mem c (closed (close_conn c s)) = true).
+Proof. intros s c. exact (close_conn_post c s). Qed.
+Print Assumptions C07_close_cleans_registry_without_base_record.
+
+Theorem C07_late_registration_preserves_invariant :
+  forall (k : cfg) (c kind x : N) (s : st), Inv s -> Inv (fst (hs_phaseA_late Current k c kind x s)).
+Proof. exact inv_phaseA_late. Qed.
+Print Assumptions C07_late_registration_preserves_invariant.
+
+Theorem C07_late_registration_nonvacuous :
+  mem 1 (sess late_register_state) = false /\ (exists r, by_conn late_register_state 1 = Some r /\ c_auth r = true) /\
+  mem 1 (closed late_register_state) = true /\ counts late_register_state = (0, 1, 0) /\
+  by_conn (close_conn 1 late_register_state) 1 = None /\ counts (close_conn 1 late_register_state) = (0, 0, 0).
+Proof. exact late_register_demo. Qed.
+Print Assumptions C07_late_registration_nonvacuous.
+
 (* the stale sweep never un-indexes a fresh connection: in every reachable state, a registered connection whose last activity is
    within the heartbeat timeout and which is the indexed connection of its client is still registered and still the answer for
    that client after cleanupStaleConnections — whatever else is swept (e.g. a stale record authenticated as the same client
